@@ -583,6 +583,19 @@ func (c *cli) ruleOutput(r *Report) {
 					}
 				}
 				switch calleeFullName(ci) {
+				case "os.OpenFile", "os.Create":
+					args := ci.Common().Args
+					if c.flagOf(args[0]) == "output" {
+						trunc := calleeFullName(ci) == "os.Create"
+						if len(args) > 1 {
+							if fl, ok := constInt(args[1]); ok && fl&0x200 != 0 && fl&0x40 != 0 {
+								trunc = true
+							}
+						}
+						if !trunc {
+							r.Bad(rule, c.key(fn, "output-file-truncated"), c.w.Pos(ci.Pos()), "the -o file is opened without O_CREATE|O_TRUNC: bytes of a longer previous content stay behind the new output")
+						}
+					}
 				case "io/ioutil.WriteFile", "os.WriteFile":
 					nWrite++
 					if b == fE.To() {
@@ -610,9 +623,42 @@ func (c *cli) ruleOutput(r *Report) {
 			r.Ok(rule, key, pos, "one value, printed with fmt.Print when -o is empty and written with WriteFile otherwise; no other stdout write")
 		}
 		if printed != nil {
-			ok, why := c.rendering(printed, map[ssa.Value]bool{})
-			r.Check(ok, rule, c.key(fn, "is-library-rendering"), pos, "the printed value is exactly the string the library rendered",
-				"the printed value is not exactly what the library rendered: "+why)
+			if p, isParam := strip(printed).(*ssa.Parameter); isParam && p.Parent() == fn {
+				// an extracted output helper: every caller must hand it a library rendering
+				pi := -1
+				for i, q := range fn.Params {
+					if q == p {
+						pi = i
+					}
+				}
+				n-- // the helper itself is not a print routine; its call sites are
+				for _, caller := range c.fns {
+					k := 0
+					allInstrs(caller, func(in ssa.Instruction) {
+						call, ok := in.(*ssa.Call)
+						if !ok || staticCallee(call) != fn || pi >= len(call.Call.Args) {
+							return
+						}
+						k++
+						n++
+						ok2, why := c.rendering(call.Call.Args[pi], map[ssa.Value]bool{})
+						r.Check(ok2, rule, c.key(caller, fmt.Sprintf("is-library-rendering→%s#%d", fn.Name(), k)), c.w.Pos(call.Pos()), "the value handed to the output helper is exactly the string the library rendered",
+							"the value handed to the output helper is not exactly what the library rendered: "+why)
+						// the caller itself writes nothing to stdout
+						extra := false
+						allInstrs(caller, func(in2 ssa.Instruction) {
+							if ci, ok := in2.(ssa.CallInstruction); ok && isStdoutWrite(ci) {
+								extra = true
+							}
+						})
+						r.Check(!extra, rule, c.key(caller, "no-other-stdout"), c.w.Pos(caller.Pos()), "the routine writes nothing to stdout besides the output helper", "the routine writes to stdout besides the output helper: with -o something still reaches stdout")
+					})
+				}
+			} else {
+				ok, why := c.rendering(printed, map[ssa.Value]bool{})
+				r.Check(ok, rule, c.key(fn, "is-library-rendering"), pos, "the printed value is exactly the string the library rendered",
+					"the printed value is not exactly what the library rendered: "+why)
+			}
 		}
 	}
 	if n < 3 {
